@@ -1030,8 +1030,7 @@ func skSupCmd(k skCtx, c *skCmd) bool {
 	case "traperr":
 		return len(c.P) == 0
 	case "asub":
-		starts := len(c.P) > 0 && !c.P[0].Neg && c.P[0].C.K == "sete"
-		return !(k.e && (k.ign || k.unk)) && (!k.e || starts) && skSupProg(skSubCtx(k), false, c.P)
+		return !(k.e && (k.ign || k.unk)) && skSupProg(skSubCtx(k), false, c.P)
 	case "subsh":
 		return !(k.e && (k.ign || k.unk)) && skSupProg(skSubCtx(k), false, c.P)
 	case "block":
@@ -1415,9 +1414,6 @@ func (g *skGen) stmt(k skCtx, depth int) *skStmt {
 		case c < 6:
 			if !noSub || g.wildly() {
 				p := g.prog(skSubCtx(k), false, depth-1, 3)
-				if k.e && !g.wildly() {
-					p = append([]*skStmt{{C: &skCmd{K: "sete", On: r.Bool()}}}, p...)
-				}
 				return &skStmt{C: &skCmd{K: "asub", Name: r.Pick(skVars), P: p}}
 			}
 		case c < 9:
@@ -1559,6 +1555,10 @@ func (g *skGen) program() []*skStmt {
 // running
 
 const c26Fuel = 400
+
+// The interpreter documents (interp/api.go bashOptsTable: inherit_errexit defaultState true, "off"
+// not supported) that command substitutions inherit `-e`; bash is run the same way.
+const c26BashPrefix = "shopt -s inherit_errexit\n"
 
 func c26Res(r ShellResult) string {
 	if r.TimedOut {
@@ -1727,7 +1727,7 @@ func c26(c *Ctx) {
 		}
 	}
 	bres := parallelMap(len(bashIdx), workers, func(i int) ShellResult {
-		return runShellIn(c, "bash", dir, cases[bashIdx[i]].text)
+		return runShellIn(c, "bash", dir, c26BashPrefix+cases[bashIdx[i]].text)
 	})
 	nBash := 0
 	for j, i := range bashIdx {
@@ -1909,7 +1909,11 @@ func c26Mutants(src string) []string {
 					}
 				}
 			case isAlpha(l.Value):
-				for _, c := range []string{"foo", "b", "xyz"} {
+				// replacement words that no seed program uses as a variable, function or file name:
+				// a value that names a variable of the program creates reference cycles (`declare -n
+				// foo=foo`, `a=a; $((a))`) — the first is the repository's own `#IGNORE`d case, the
+				// second is finding C26-arith-self-reference
+				for _, c := range []string{"qq", "zqz"} {
 					if c != l.Value && len(rs) < 2 {
 						rs = append(rs, c)
 					}
@@ -2075,19 +2079,22 @@ func c26Mutations(c *Ctx, _ string, workers int) {
 		// differ are version/environment differences of the repository's own expectations
 		// (TestRunnerRunConfirm needs bash 5.3), not mutations
 		r.in0, r.inErr0 = c26RunInterpErr(c, seeds[pick[i].seed].in)
-		r.sh0 = runShell(c, "bash", seeds[pick[i].seed].in)
+		r.sh0 = runShell(c, "bash", c26BashPrefix+seeds[pick[i].seed].in)
 		if r.in0.TimedOut || r.sh0.TimedOut || !c26Agree(r.in0, r.inErr0, r.sh0) {
 			r.origDiffers = true
 			return r
 		}
 		r.in, r.inErr = c26RunInterpErr(c, pick[i].text)
-		r.sh = runShell(c, "bash", pick[i].text)
+		r.sh = runShell(c, "bash", c26BashPrefix+pick[i].text)
 		return r
 	})
 	for i, r := range out {
 		m := pick[i]
 		if r.origDiffers {
 			c.Case("orig:"+seeds[m.seed].in, false, "repo-original-differs-under-bash-5.2")
+			if l, _ := c.Extra["orig_differs_samples"].([]string); len(l) < 40 && !r.in0.TimedOut && !r.sh0.TimedOut {
+				c.Extra["orig_differs_samples"] = append(l, fmt.Sprintf("%q interp=%q/%d bash=%q/%d", seeds[m.seed].in, r.in0.Stdout, r.in0.Status, r.sh0.Stdout, r.sh0.Status))
+			}
 			continue
 		}
 		c.Case("mut:"+m.text, true, "repo-mutant")
